@@ -1,10 +1,10 @@
 package main
 
 import (
-	"sort"
 	"go/constant"
 	"go/token"
 	"go/types"
+	"sort"
 	"strings"
 
 	"golang.org/x/tools/go/ssa"
@@ -13,7 +13,7 @@ import (
 type funcModel struct {
 	wc func(ft *FT, c *ssa.CallCommon) []string
 	w  func(ft *FT) []string
-	f func(ft *FT, st *State, guard Term, c *ssa.CallCommon, args []Term, pos token.Pos) []Term
+	f  func(ft *FT, st *State, guard Term, c *ssa.CallCommon, args []Term, pos token.Pos) []Term
 }
 
 func (m *funcModel) writesCall(ft *FT, c *ssa.CallCommon) []string {
@@ -630,7 +630,6 @@ func variadicOperands(v ssa.Value) ([]ssa.Value, bool) {
 	}
 	return ops, true
 }
-
 
 // directParamLocks: the mutexes a function acquires on a field of one of its own parameters
 // (c.mu.Lock(), m.mu.RLock()) - itself or through static calls that pass the parameter along
